@@ -8,7 +8,7 @@
 (***************************************************************************)
 EXTENDS Ini, FTab, Json
 
-VARIABLES l, bad, stat, j
+VARIABLE l
 
 TraceRecs == ndJsonDeserialize("trace.ndjson")
 Decls == ndJsonDeserialize("decls.ndjson")
@@ -36,7 +36,9 @@ Perms(X) == IF X = {} THEN {<<>>} ELSE UNION {{<<x>> \o p : p \in Perms(X \ {x})
 \* outcomes of an INI read over every order in which the sections may be applied
 IniOutcomes(s, c, text) ==
   LET ini == ReadIni(text) IN
-  IF ini.unspec \/ ini.err # 0 THEN {IniParse(s, text, c.asDefaults, IdentityOrder(ini))}
+  \* intended: the sections are applied in file order.  The pinned code ranged over a Go map (switch IniSectionMapOrder):
+  \* then any order may have been taken
+  IF ini.unspec \/ ini.err # 0 \/ ~Defect("IniSectionMapOrder") THEN {IniParse(s, text, c.asDefaults, IdentityOrder(ini))}
   ELSE IF Len(ini.secs) <= 4 THEN {ApplyIni(s, ini, c.asDefaults, p) : p \in Perms(1..Len(ini.secs))}
   ELSE \* many sections: file order, every rotation of it, and every section on its own first (whichever section the map yields
        \* first decides which error is met first); enough to explain any first error, values are compared for the file order
@@ -126,13 +128,19 @@ Judge(rec) ==
       rt |-> B(InDom12(rec, d)), src |-> B(tagged("sources") /\ ~r.grey), eqv |-> B(tagged("equiv") /\ ~r.grey), rep |-> B(rec.runs > 1)]
 
 StatKeys == {"grey", "ini", "inierr", "writes", "multi", "rt", "src", "eqv", "rep"}
-Init == l = 1 /\ bad = [p \in Props |-> {}] /\ stat = [k \in StatKeys |-> 0] /\ j = <<>>
-Next == /\ l <= Len(TraceRecs) /\ l' = l + 1
-        /\ j' = Judge(TraceRecs[l])
-        /\ bad' = [p \in Props |-> IF j'[p] THEN bad[p] ELSE bad[p] \cup {l}]
-        /\ stat' = [k \in StatKeys |-> stat[k] + j'[k]]
-        /\ TLCSet(1, bad') /\ TLCSet(2, stat') /\ TLCSet(3, l)
-Spec == Init /\ [][Next]_<<l, bad, stat, j>>
+\* One state per record.  The judging is done in an invariant, not in the action: TLC caches lazily evaluated
+\* operator arguments and LET definitions only when it evaluates a state predicate; inside a next-state action every
+\* use re-evaluates them, which turns the nested operators of the specification exponential on large records.
+Init == l = 1 /\ TLCSet(1, [p \in Props |-> {}]) /\ TLCSet(2, [k \in StatKeys |-> 0]) /\ TLCSet(3, 0)
+Next == l < Len(TraceRecs) /\ l' = l + 1
+Spec == Init /\ [][Next]_l
+JudgeRecord ==
+  (l <= Len(TraceRecs)) =>
+    LET j == Judge(TraceRecs[l]) IN
+    /\ TLCSet(1, [p \in Props |-> IF j[p] THEN TLCGet(1)[p] ELSE TLCGet(1)[p] \cup {l}])
+    /\ TLCSet(2, [k \in StatKeys |-> TLCGet(2)[k] + j[k]])
+    /\ TLCSet(3, TLCGet(3) + 1)
+
 Post == /\ PrintT(<<"VERIF-CONSUMED", TLCGet(3), Len(TraceRecs)>>)
         /\ PrintT(<<"VERIF-STAT", TLCGet(2)>>)
         /\ \A p \in Props : PrintT(<<"VERIF-BAD", p, TLCGet(1)[p]>>)
